@@ -1,13 +1,13 @@
 (** Properties_C05.v — property C05: printed text is strict JSON and all print variants agree.
     Only statements closed by [exact]; proofs live in PrintStrict.v, PrintStrictWs.v,
-    PrintStrictInt.v, PrintStrictVariants.v, PrintStrictRef.v (this property) and PrintProofs.v (the buffer-level refinement, printer).
+    PrintStrictInt.v, PrintStrictUtf8.v, PrintStrictVariants.v, PrintStrictRef.v (this property) and PrintProofs.v (the buffer-level refinement, printer).
 
     The C library conversions called by print_number (sprintf %d / %1.15g / %1.17g, sscanf %lg)
     are external code: every theorem is stated for EVERY libc satisfying the contract record
     [LibcStrictSpec] (7 named clauses: the three conversions produce RFC 8259 number tokens that
     fit print_number's 26-byte scratch buffer; %d prints an optional minus and digits only).
     [render] is the text the buffer-level printer is proved to produce (C05_variants below). *)
-From CJ Require Import Base Dbl Tree Grammar PrintDefs PrintLemmas LibcPrint PrintStrict PrintStrictWs PrintStrictInt PrintStrictRef PrintStrictVariants.
+From CJ Require Import Base Dbl Tree Grammar PrintDefs PrintLemmas LibcPrint PrintStrict PrintStrictWs PrintStrictInt PrintStrictUtf8 PrintStrictRef PrintStrictVariants.
 Local Open Scope Z_scope.
 
 (** ------------------------------------------------------------------ 1. strict JSON *)
@@ -49,6 +49,20 @@ Theorem C05_value_ok :
   forall n, printable n = true -> jv_ok (val_of fmt_d fmt_g15 fmt_g17 sscanf_lg n).
 Proof. exact val_of_jv_ok. Qed.
 Print Assumptions C05_value_ok.
+
+(** RFC 8259 section 8.1 (the text is UTF-8): if every string and member name the printer reaches is
+    well-formed UTF-8 ([utf8_valid]: the table of RFC 3629 section 4 as a boolean function), so is
+    the printed text — the printer only replaces ASCII bytes by ASCII sequences *)
+Theorem C05_strict_utf8 :
+  forall fmt_d fmt_g15 fmt_g17 sscanf_lg, LibcStrictSpec fmt_d fmt_g15 fmt_g17 ->
+  forall n, printable n = true -> strings_utf8 n = true ->
+  forall fmt depth txt, render fmt_d fmt_g15 fmt_g17 sscanf_lg fmt depth n = Some txt -> utf8_valid txt = true.
+Proof. exact render_utf8. Qed.
+Print Assumptions C05_strict_utf8.
+
+Theorem C05_string_body_utf8 : forall s, utf8_valid s = true -> utf8_valid (escape_body s) = true.
+Proof. exact escape_body_utf8. Qed.
+Print Assumptions C05_string_body_utf8.
 
 (** ------------------------------------------------------------------ 2. formatting is whitespace only *)
 
@@ -175,3 +189,13 @@ Theorem C05_nonvacuous_strict :
   RFC_text ex_text_formatted (val_of fmt_d sg_fmt_g15 sg_fmt_g17 sscanf_lg ex_tree).
 Proof. exact ex_tree_texts_rfc. Qed.
 Print Assumptions C05_nonvacuous_strict.
+
+(** the UTF-8 hypothesis is satisfiable by a tree with 2-, 3- and 4-byte sequences (and it is a real
+    restriction: the tree above, which contains the bytes 80 and FF, does not satisfy it) *)
+Theorem C05_nonvacuous_utf8 :
+  printable ex_tree_u = true /\ strings_utf8 ex_tree_u = true /\ strings_utf8 ex_tree = false /\
+  render fmt_d fmt_g15 fmt_g17 sscanf_lg false 0 ex_tree_u =
+    Some [123; 34; 195; 169; 34; 58; 91; 34; 226; 130; 172; 34; 44; 34; 240; 144; 141; 136; 92; 116; 34; 93; 125] /\
+  option_map utf8_valid (render fmt_d fmt_g15 fmt_g17 sscanf_lg true 0 ex_tree_u) = Some true.
+Proof. exact ex_tree_u_ok. Qed.
+Print Assumptions C05_nonvacuous_utf8.
